@@ -144,7 +144,10 @@ crypto_secretstream_xchacha20poly1305_push
     out[0] = block[0];
 
     c = out + (sizeof tag);
-    crypto_stream_chacha20_ietf_xor_ic(c, m, mlen, state->nonce, 2U, state->k);
+    if (mlen > 0U) { /* m can be NULL for an empty message */
+        crypto_stream_chacha20_ietf_xor_ic(c, m, mlen, state->nonce, 2U,
+                                           state->k);
+    }
     crypto_onetimeauth_poly1305_update(&poly1305_state, c, mlen);
     crypto_onetimeauth_poly1305_update
         (&poly1305_state, _pad0, (0x10 - (sizeof block) + mlen) & 0xf);
@@ -241,7 +244,10 @@ crypto_secretstream_xchacha20poly1305_pull
         return -1;
     }
 
-    crypto_stream_chacha20_ietf_xor_ic(m, c, mlen, state->nonce, 2U, state->k);
+    if (mlen > 0U) { /* m can be NULL for an empty message */
+        crypto_stream_chacha20_ietf_xor_ic(m, c, mlen, state->nonce, 2U,
+                                           state->k);
+    }
     XOR_BUF(STATE_INONCE(state), mac,
             crypto_secretstream_xchacha20poly1305_INONCEBYTES);
     sodium_increment(STATE_COUNTER(state),
